@@ -16,6 +16,8 @@ import GlmVerif.Props.C19.T_saturation_grey
 import GlmVerif.Props.C19.T_luminosity
 import GlmVerif.Props.C19.T_rgbColor
 import GlmVerif.Props.C19.T_hsvColor
+import GlmVerif.Props.C19.T_saturation3
+import GlmVerif.Props.C19.T_saturation4
 /-! every family table of C19 holds for the model generated from the current /repo -/
 namespace Glm.Props.C19
 open Glm Glm.Spec.C19 Glm.Gen.C19
@@ -37,5 +39,7 @@ theorem all_ok : ∀ f ∈ families, f.ok lookup = true := by
     (Family.ok_congr f_saturation_grey (fun ks => by rw [show f_saturation_grey.unit = "saturation" from rfl, lookup_saturation])).trans saturation_grey_ok,
     (Family.ok_congr f_luminosity (fun ks => by rw [show f_luminosity.unit = "luminosity" from rfl, lookup_luminosity])).trans luminosity_ok,
     (Family.ok_congr f_rgbColor (fun ks => by rw [show f_rgbColor.unit = "rgbColor" from rfl, lookup_rgbColor])).trans rgbColor_ok,
-    (Family.ok_congr f_hsvColor (fun ks => by rw [show f_hsvColor.unit = "hsvColor" from rfl, lookup_hsvColor])).trans hsvColor_ok⟩
+    (Family.ok_congr f_hsvColor (fun ks => by rw [show f_hsvColor.unit = "hsvColor" from rfl, lookup_hsvColor])).trans hsvColor_ok,
+    (Family.ok_congr f_saturation3 (fun ks => by rw [show f_saturation3.unit = "saturation3" from rfl, lookup_saturation3])).trans saturation3_ok,
+    (Family.ok_congr f_saturation4 (fun ks => by rw [show f_saturation4.unit = "saturation4" from rfl, lookup_saturation4])).trans saturation4_ok⟩
 end Glm.Props.C19
